@@ -197,8 +197,8 @@ def _job(job):
                                       f["ret"]["row"] if f["ret"] else "void", repr(sorted(options.items())) if options else "",
                                       op.get("split"), op.get("bad"), op.get("pos")))
         for p in f["params"]:
-            out["labels"].append("row:" + p["row"])
-        out["labels"].append("ret:" + (f["ret"]["row"] if f["ret"] else "void"))
+            out["labels"].append("row:" + ("E1" if p.get("enum") else p["row"]))
+        out["labels"].append("ret:" + (("E" if f["ret"].get("enum") else f["ret"]["row"]) if f["ret"] else "void"))
     if plan and plan[0]["kind"] == "call":
         f, k = plan[0]["f"], plan[0]["k"]
         exp = split_calls(res["expected"]).get(0, [])
